@@ -86,6 +86,39 @@ func check(fd *ast.FuncDecl, recv string, r rule) string {
 	if fd.Body == nil || len(fd.Body.List) == 0 {
 		return "empty body"
 	}
+	if r.Mode == "handoff" {
+		// leading statements that do not touch the receiver (plain declarations) are allowed before the Lock
+		start := -1
+		for i, st := range fd.Body.List {
+			if es, ok := st.(*ast.ExprStmt); ok && isCall(es.X, recv, r.Lock, "Lock") {
+				start = i
+				break
+			}
+			touches := false
+			ast.Inspect(st, func(n ast.Node) bool {
+				if id, ok := n.(*ast.Ident); ok && id.Name == recv {
+					touches = true
+				}
+				return true
+			})
+			if touches {
+				return "the receiver is used before " + recv + "." + r.Lock + ".Lock()"
+			}
+		}
+		if start < 0 {
+			return "no " + recv + "." + r.Lock + ".Lock() statement"
+		}
+		bad := ""
+		for _, st := range fd.Body.List[start+1:] {
+			ast.Inspect(st, func(n ast.Node) bool {
+				if e, ok := n.(ast.Expr); ok && (isCall(e, recv, r.Lock, "Unlock") || isCall(e, recv, r.Lock, "Lock")) {
+					bad = "the mutex is released or re-taken inside the body (the critical section must be handed to the callee unbroken)"
+				}
+				return true
+			})
+		}
+		return bad
+	}
 	pairs := [][2]string{}
 	switch r.Mode {
 	case "lock":
